@@ -51,24 +51,45 @@ def mode_mirror(acc, cls, A, B, da, db, ncA, ncB, args):
         def rev(arr):
             return arr[:, ::-1]
 
-        for loc, dom in (("centre", dom_c), ("xlow", dom_c), ("ylow", dom_f), ("corners", dom_f)):
+        # positions: the region's OWN contour points (before the shared y-faces are
+        # overwritten with the upper neighbour's copies)
+        PA = np.array([[[p.R, p.Z] for p in c] for c in r.contours])
+        PB = np.array([[[p.R, p.Z] for p in c] for c in m.contours])[:, ::-1, :]
+        dist = np.hypot(PA[..., 0] - PB[..., 0], PA[..., 1] + PB[..., 1])
+        npol = dist.shape[1]
+        dom_p = np.ones(npol, bool)
+        if lower_t:
+            dom_p[: 2 * myg] = False
+        if upper_t:
+            dom_p[npol - 2 * myg :] = False
+        acc.add("mirror: R equal, Z negated (in-domain points, own contour points)", cls, float(dist[:, dom_p].max()), pos_tol, where={"region": name}, n=int(dom_p.sum()) * dist.shape[0])
+        if (~dom_p).any():
+            acc.add("mirror: R equal, Z negated (boundary guard cells)", cls, float(dist[:, ~dom_p].max()), pos_tol, where={"region": name}, n=int((~dom_p).sum()) * dist.shape[0], sig="guard cells beyond a target are not the mirror image")
+        # the y-faces shared with a neighbour as written to the file (upper neighbour's copy)
+        for loc in ("ylow", "corners"):
             R1, Z1 = getattr(r.Rxy, loc), getattr(r.Zxy, loc)
             R2, Z2 = rev(getattr(m.Rxy, loc)), rev(getattr(m.Zxy, loc))
-            dist = np.hypot(R1 - R2, Z1 + Z2)
-            acc.add("mirror: R equal, Z negated (in-domain points)", cls, float(dist[:, dom].max()) if dom.any() else 0.0, pos_tol, where={"region": name, "loc": loc}, n=int(dom.sum()) * dist.shape[0])
-            if (~dom).any():
-                acc.add("mirror: R equal, Z negated (boundary guard cells)", cls, float(dist[:, ~dom].max()), pos_tol, where={"region": name, "loc": loc}, n=int((~dom).sum()) * dist.shape[0], sig="guard cells beyond a target are not the mirror image (max %.3g m)" % float(dist[:, ~dom].max()))
+            ends = ([0] if r.connections["lower"] is not None else []) + ([-1] if r.connections["upper"] is not None else [])
+            dj = np.hypot(R1 - R2, Z1 + Z2)[:, ends]
+            if ends:
+                acc.add("mirror: shared y-faces at region joins as written (copied from the upper neighbour)", cls, float(dj.max()), 1e-7, where={"region": name, "loc": loc}, sig="join faces differ from the mirror image (own end point vs upper neighbour's copy)")
         for fld, absval in (("psixy", False), ("hy", False), ("Bpxy", True), ("Bxy", False), ("g11", True), ("g22", True), ("g33", True), ("g_11", True), ("g_22", True), ("g_33", True), ("J", True), ("g23", True), ("g_23", True)):
             for loc, dom in (("centre", dom_c), ("ylow", dom_f)):
                 a1 = getattr(getattr(r, fld), loc)
                 a2 = rev(getattr(getattr(m, fld), loc))
+                dom = dom.copy()
+                if loc == "ylow":
+                    dom[0] = dom[-1] = False  # join / target faces: positions are copies or estimates
+                    if lower_t:
+                        dom[: myg + 1] = False  # the target face's hy reaches into the guard cell
+                    if upper_t:
+                        dom[ny - myg :] = False
                 if absval:
                     a1, a2 = np.abs(a1), np.abs(a2)
-                sc = max(float(np.abs(a1).max()), 1e-300)
-                e = np.abs(a1 - a2) / sc
-                # cells next to X-points have near-singular metric entries: relative to the local value
+                if not dom.any():
+                    continue
                 loc_e = np.abs(a1 - a2) / np.maximum(np.abs(a1), 1e-300)
-                acc.add("mirror: %s equal" % ("|%s|" % fld if absval else fld), cls, float(np.minimum(e, loc_e)[:, dom].max()) if dom.any() else 0.0, rel_tol, where={"region": name, "loc": loc})
+                acc.add("mirror: %s equal" % ("|%s|" % fld if absval else fld), cls, float(loc_e[:, dom].max()), rel_tol, where={"region": name, "loc": loc})
     # topology integers
     tA = {k: int(ncA[k]) for k in ("ixseps1", "ixseps2", "jyseps1_1", "jyseps2_1", "jyseps1_2", "jyseps2_2", "ny_inner", "nx", "ny")}
     tB = {k: int(ncB[k]) for k in tA}
@@ -97,9 +118,15 @@ def mode_scaled(acc, cls, A, B, da, db, ncA, ncB, args):
         if a.shape != b.shape:
             acc.add("reversal: same shapes", cls, 1.0, 0, sig=k)
             continue
-        if k.startswith(("Rxy", "Zxy", "closed_wall", "penalty_mask", "poloidal_distance", "total_poloidal", "hy", "hthe", "dy", "y-coord", "theta")):
+        if k.startswith(("Rxy", "Zxy", "closed_wall", "penalty_mask", "dy", "y-coord", "theta")):
             m = np.isfinite(a) & np.isfinite(b)
-            acc.add("reversal: positions and lengths unchanged", cls, float(np.abs(a[m] - b[m]).max()) if m.any() else 0.0, pos_tol, sig=k, where={"var": k})
+            acc.add("reversal: positions unchanged", cls, float(np.abs(a[m] - b[m]).max()) if m.any() else 0.0, pos_tol, sig=k, where={"var": k})
+            continue
+        if k.startswith(("poloidal_distance", "total_poloidal", "hy", "hthe")):
+            m = np.isfinite(a) & np.isfinite(b)
+            acc.add("reversal: lengths unchanged", cls, float((np.abs(a[m] - b[m]) / np.maximum(np.abs(b[m]), 1e-12)).max()) if m.any() else 0.0, float(args.get("len_rel_tol", args.get("rel_tol", 1e-9))), sig=k, where={"var": k})
+            continue
+        if args.get("fields") is not None and not any(k == f or k.startswith(f + "_") for f in args["fields"]):
             continue
         if a.ndim == 0 and k in ("nx", "ny", "y_boundary_guards", "ixseps1", "ixseps2", "jyseps1_1", "jyseps2_1", "jyseps1_2", "jyseps2_2", "ny_inner"):
             acc.add("reversal: topology unchanged", cls, abs(float(a) - float(b)), 0, sig=k)
